@@ -43,7 +43,7 @@ def plans(tier):
               ("chain", 1, "10", 1, 2, 1, 0, 0),
               ("chain", 2, "12", 1, 1, 1, 0, 0),
               ("atstate", 1, "10", 1, 1, 1, 0, 0),
-              ("atstate", 2, "12", 1, 1, 1, 0, 0),
+              ("atstate", 1, "12", 1, 1, 1, 0, 0),
               ("load", 1, "12", 1, 1, 1, 0, 0),
               ("load", 2, "10", 0, 2, 7, 0, 0)]
         return P
